@@ -205,3 +205,74 @@ func (c *Ctx) ruleNextDirectiveRecognised(rule string) {
 		}
 	}
 }
+
+// ruleResponseCodeGate: which keyword strings become a response-code directive is decided by NewDirectiveType. It is
+// folded on constants taken from the program: the bounds of the response-code range read by E2 (lo, hi), their
+// neighbours (lo-1, hi+1), a code with a leading zero, a four-digit code and a keyword of the table. Only codes inside
+// [lo, hi] may fold to the response-code kind without error; everything else that is not a keyword folds to an error.
+func (c *Ctx) ruleResponseCodeGate(rule string) {
+	r := c.R
+	r.Rule(rule, "directive.NewDirectiveType folds to (HTTPResponseCode, nil) for the bounds of the response-code range and to a non-nil error for their outer neighbours, for a code with a leading zero and for a four-digit code; a keyword of the table folds to its own kind", 6)
+	t := c.Tables()
+	f := c.P.LookupFunc("directive", "NewDirectiveType")
+	if f == nil || len(t.Problems) > 0 || t.RespConst == "" {
+		r.Undecided(rule, "anchor", "NewDirectiveType or the directive tables not readable", "")
+		return
+	}
+	sf := c.P.SSAFunc(f)
+	where := ""
+	if d := c.P.Decl(f); d != nil {
+		where = c.pos(d.Pos())
+	}
+	ev := &ssaeval.Eval{MaxDepth: 6, MaxPaths: 64, MaxVisits: 2000}
+	ev.Follow = func(fn *ssa.Function) bool {
+		return fn.Pkg != nil && strings.HasPrefix(fn.Pkg.Pkg.Path(), prog.ModulePath)
+	}
+	if dp := c.P.Pkg("directive"); dp != nil && c.P.SSAPkgs[dp.Types] != nil {
+		ev.Inits(c.P.SSAPkgs[dp.Types])
+	}
+	fold := func(word string) string {
+		outs := ev.Run(sf, []ssaeval.Value{ssaeval.Str(word)})
+		res := ""
+		for _, o := range outs {
+			if o.Incomplete != "" || o.Panics || len(o.Rets) != 2 {
+				return "undecided (" + o.Incomplete + ")"
+			}
+			isNil, known := o.Rets[1].IsNilKnown()
+			if !known {
+				return "undecided (error " + o.Rets[1].String() + ")"
+			}
+			v := "error"
+			if isNil {
+				if o.Rets[0].K != ssaeval.Const {
+					return "undecided (kind " + o.Rets[0].String() + ")"
+				}
+				n, _ := constant.Int64Val(constant.ToInt(o.Rets[0].C))
+				v = t.ByValue[n]
+			}
+			if res != "" && res != v {
+				return "undecided (both " + res + " and " + v + ")"
+			}
+			res = v
+		}
+		return res
+	}
+	cases := []struct{ word, want string }{
+		{itoa(t.RespLo), t.RespConst}, {itoa(t.RespHi), t.RespConst}, {itoa((t.RespLo + t.RespHi) / 2), t.RespConst},
+		{itoa(t.RespLo - 1), "error"}, {itoa(t.RespHi + 1), "error"}, {"0" + itoa(t.RespLo)[1:], "error"}, {itoa(t.RespLo) + "0", "error"},
+		{"999", "error"}, {"abc", "error"}, {"", "error"},
+	}
+	for w, n := range t.KeywordSet() {
+		if w == "GET" || w == "URL" || w == "PASTE" {
+			cases = append(cases, struct{ word, want string }{w, n})
+		}
+	}
+	for _, cs := range cases {
+		key := fmt.Sprintf("NewDirectiveType(%q)", cs.word)
+		if got := fold(cs.word); got == cs.want {
+			r.Ok(rule, key, "folds to "+got, where)
+		} else {
+			r.Bad(rule, key, fmt.Sprintf("folds to %s, expected %s: a keyword outside the response-code range [%d, %d] becomes a directive (or one inside is refused)", got, cs.want, t.RespLo, t.RespHi), where)
+		}
+	}
+}
